@@ -445,29 +445,29 @@ func coqR(e *R) string {
 }
 
 // constructors
-func cur() *R                { return &R{K: KCurrent} }
-func fld(n string) *R        { return &R{K: KField, Name: n} }
-func lit(v any) *R           { return &R{K: KLiteral, Lit: v} }
-func litJ(s string) *R       { return &R{K: KLiteral, Lit: jsonDoc(s)} }
-func raw(s string) *R        { return &R{K: KRaw, Name: s} }
-func sub(l, r *R) *R         { return &R{K: KSub, L: l, Rt: r} }
-func idx(l *R, i int64) *R   { return &R{K: KIndex, L: l, I: i} }
+func cur() *R                  { return &R{K: KCurrent} }
+func fld(n string) *R          { return &R{K: KField, Name: n} }
+func lit(v any) *R             { return &R{K: KLiteral, Lit: v} }
+func litJ(s string) *R         { return &R{K: KLiteral, Lit: jsonDoc(s)} }
+func raw(s string) *R          { return &R{K: KRaw, Name: s} }
+func sub(l, r *R) *R           { return &R{K: KSub, L: l, Rt: r} }
+func idx(l *R, i int64) *R     { return &R{K: KIndex, L: l, I: i} }
 func proj(k PKind, l, r *R) *R { return &R{K: KProj, PK: k, L: l, Rt: r} }
-func filt(l, c, r *R) *R     { return &R{K: KProj, PK: PFilter, L: l, Cond: c, Rt: r} }
+func filt(l, c, r *R) *R       { return &R{K: KProj, PK: PFilter, L: l, Cond: c, Rt: r} }
 func slc(l *R, a, b, c *int64, r *R) *R {
 	return &R{K: KProj, PK: PSlice, L: l, Start: a, Stop: b, Step: c, Rt: r}
 }
-func pipe(l, r *R) *R        { return &R{K: KPipe, L: l, Rt: r} }
-func or(l, r *R) *R          { return &R{K: KOr, L: l, Rt: r} }
-func and(l, r *R) *R         { return &R{K: KAnd, L: l, Rt: r} }
-func not(e *R) *R            { return &R{K: KNot, Rt: e} }
-func cmp(op string, l, r *R) *R { return &R{K: KCmp, Op: op, L: l, Rt: r} }
-func arith(op string, l, r *R) *R { return &R{K: KArith, Op: op, L: l, Rt: r} }
+func pipe(l, r *R) *R                  { return &R{K: KPipe, L: l, Rt: r} }
+func or(l, r *R) *R                    { return &R{K: KOr, L: l, Rt: r} }
+func and(l, r *R) *R                   { return &R{K: KAnd, L: l, Rt: r} }
+func not(e *R) *R                      { return &R{K: KNot, Rt: e} }
+func cmp(op string, l, r *R) *R        { return &R{K: KCmp, Op: op, L: l, Rt: r} }
+func arith(op string, l, r *R) *R      { return &R{K: KArith, Op: op, L: l, Rt: r} }
 func call(name string, args ...Arg) *R { return &R{K: KCall, Name: name, Args: args} }
-func av(e *R) Arg            { return Arg{E: e} }
-func ar(e *R) Arg            { return Arg{Ref: true, E: e} }
-func mlist(es ...*R) *R      { return &R{K: KMultiList, Es: es} }
-func mhash(kes ...KV) *R     { return &R{K: KMultiHash, KEs: kes} }
-func let(bs []KV, body *R) *R { return &R{K: KLet, KEs: bs, Rt: body} }
-func vr(n string) *R         { return &R{K: KVar, Name: n} }
-func ip(i int64) *int64      { return &i }
+func av(e *R) Arg                      { return Arg{E: e} }
+func ar(e *R) Arg                      { return Arg{Ref: true, E: e} }
+func mlist(es ...*R) *R                { return &R{K: KMultiList, Es: es} }
+func mhash(kes ...KV) *R               { return &R{K: KMultiHash, KEs: kes} }
+func let(bs []KV, body *R) *R          { return &R{K: KLet, KEs: bs, Rt: body} }
+func vr(n string) *R                   { return &R{K: KVar, Name: n} }
+func ip(i int64) *int64                { return &i }
